@@ -816,6 +816,10 @@ class ZonalStatistics(AccessorBase):
         if "nodata" not in zones.attrs:
             raise ValueError("Zones xarray DataArray needs nodata attribute")
 
+        # match the zones raster to the spatial dimensions of the data by name
+        if set(zones.dims) == set(xx.dims[1:]):
+            zones = zones.transpose(*xx.dims[1:])
+
         # set null values to nodata value
         xx = xx.where(xx.notnull(), xx.nodata)
         attrs = xx.attrs
